@@ -22,6 +22,10 @@ pub struct FragState {
     pub interrupt_every: usize,
     pub data_reads: usize,
     pub interrupted: u64,
+    /// (stream position, milliseconds): the read call that would deliver the byte at that position first waits that long
+    /// (a slow link, a peer that stalls in the middle of a frame); each pause happens once
+    pub pauses: Vec<(usize, u64)>,
+    pub paused_ms: u64,
 }
 
 #[derive(Clone)]
@@ -40,6 +44,12 @@ impl FragmentingReader {
     }
     pub fn interrupted(&self) -> u64 {
         self.0.lock().unwrap().interrupted
+    }
+    pub fn set_pauses(&self, p: Vec<(usize, u64)>) {
+        self.0.lock().unwrap().pauses = p;
+    }
+    pub fn paused_ms(&self) -> u64 {
+        self.0.lock().unwrap().paused_ms
     }
     pub fn written(&self) -> Vec<u8> {
         self.0.lock().unwrap().written.clone()
@@ -66,6 +76,12 @@ impl Read for FragmentingReader {
         }
         if buf.is_empty() {
             return Ok(0);
+        }
+        let pos = s.pos;
+        if let Some(i) = s.pauses.iter().position(|(p, _)| *p <= pos) {
+            let (_, ms) = s.pauses.remove(i);
+            s.paused_ms += ms;
+            std::thread::sleep(std::time::Duration::from_millis(ms));
         }
         if s.interrupt_every >= 2 {
             s.data_reads += 1;
